@@ -38,6 +38,14 @@ type Target struct {
 
 var targets []*Target
 
+// partIdx/partN: the current work unit processes the enumerated items whose
+// canonical form hashes to partIdx modulo partN.
+var partIdx, partN = 0, 1
+
+func mine(key string) bool {
+	return partN <= 1 || int(nameHash(key)%uint32(partN)) == partIdx
+}
+
 // Seed is VERIF_SEED; it only drives the supplementary random values of C19.
 var Seed int
 
@@ -159,13 +167,33 @@ func Main() {
 		return
 	}
 	ids := strings.Split(*prop, ",")
-	for i, t := range targets {
-		if i%sn != si {
-			continue
-		}
+	// work units: (target, part); heavy targets are split into parts that
+	// partition the enumerated items by hash of their canonical form
+	type unit struct {
+		t          *Target
+		part, of_ int
+	}
+	var units []unit
+	for _, t := range targets {
 		if *only != "" && t.Case != *only {
 			continue
 		}
+		n := 1
+		if c := t.Tags["class"]; c == "sink" || c == "multiroot" {
+			n = 8
+		}
+		for p := 0; p < n; p++ {
+			units = append(units, unit{t, p, n})
+		}
+	}
+	// heavy units first so they spread over the workers
+	sort.SliceStable(units, func(i, j int) bool { return units[i].of_ > units[j].of_ })
+	for i, u := range units {
+		if i%sn != si {
+			continue
+		}
+		t := u.t
+		partIdx, partN = u.part, u.of_
 		for _, id := range ids {
 			p, ok := procs[id]
 			if !ok {
